@@ -56,6 +56,7 @@ func rolesString(m map[string]bool) string {
 func (c *Ctx) defaultsWiring(rule string, prefixes ...string) {
 	run := c.Run
 	run.Floor("documented_default_values", 5)
+	c.defaultsUsed(rule, prefixes...)
 	for _, pk := range c.P.Pkgs {
 		rel := load.RelPkg(pk.PkgPath)
 		match := false
@@ -312,4 +313,53 @@ func (c *Ctx) documentedDefaults(rule, rel string, info *types.Info, f *ast.File
 			}
 		}
 	}
+}
+
+// defaultsUsed: every exported Default… constant of the packages is referred to by non-test code
+// of the module. The constants are the documented default configuration; one that nothing uses
+// any more means that the default constructor takes its value from somewhere else (a
+// sub-indicator's own default, a literal).
+func (c *Ctx) defaultsUsed(rule string, prefixes ...string) {
+	run := c.Run
+	used := map[types.Object]bool{}
+	for _, pk := range c.P.Pkgs {
+		for id, obj := range pk.TypesInfo.Uses {
+			if _, isC := obj.(*types.Const); !isC || !strings.HasPrefix(obj.Name(), "Default") {
+				continue
+			}
+			if strings.HasSuffix(c.P.Fset.Position(id.Pos()).Filename, "_test.go") {
+				continue
+			}
+			used[obj] = true
+		}
+	}
+	n := 0
+	for _, pk := range c.P.Pkgs {
+		rel := load.RelPkg(pk.PkgPath)
+		match := false
+		for _, p := range prefixes {
+			if rel == p || strings.HasPrefix(rel, p+"/") {
+				match = true
+			}
+		}
+		if !match {
+			continue
+		}
+		sc := pk.Types.Scope()
+		for _, name := range sc.Names() {
+			cst, ok := sc.Lookup(name).(*types.Const)
+			if !ok || !strings.HasPrefix(name, "Default") || !cst.Exported() {
+				continue
+			}
+			if strings.HasSuffix(c.P.Fset.Position(cst.Pos()).Filename, "_test.go") {
+				continue
+			}
+			n++
+			run.Oblige(used[cst])
+			if !used[cst] {
+				c.violate(rule, rel+"."+name, "unused default", cst.Pos(), "the documented default "+name+" is not used by any code of the module: the default constructor takes this part of the configuration from somewhere else")
+			}
+		}
+	}
+	run.Count("default_constants", n)
 }
